@@ -5,6 +5,8 @@ import (
 	"fmt"
 	"strings"
 
+	"math/big"
+
 	"github.com/aundis/formula"
 	"github.com/ericlagergren/decimal"
 
@@ -26,8 +28,15 @@ const stableProbe = "[toString($a), '' + $a, $a == V, $a === V, $a - V, $a * 1, 
 
 func stableCheck(w *core.W, mon, id string, c *StoredNumCase) {
 	wide, _ := new(decimal.Big).SetString("98765432109876543210987654321000000000000")
+	// numbers the way hosts build them: with a context of their own choice (60 digits here), or without any (mantissa and scale)
+	w50, _ := decimal.WithPrecision(60).SetString("12345678901234567890123456789012345678901234567890")
+	w40f, _ := decimal.WithPrecision(60).SetString("-1234567890123456789012345678901234.567891")
+	m20, _ := new(big.Int).SetString("12345678901234567890", 10)
+	raw20 := new(decimal.Big).SetBigMantScale(m20, 2)
+	m33, _ := new(big.Int).SetString("-987654321098765432109876543210123", 10)
+	raw33 := new(decimal.Big).SetBigMantScale(m33, -3)
 	data := func() map[string]interface{} {
-		return map[string]interface{}{"dwide": wide, "d150": decimal.New(150, 2), "d100": decimal.New(100, 0), "d1e2": decimal.New(1, -2), "i100": 100, "f": 2500.0, "x": 3}
+		return map[string]interface{}{"w50": w50, "w40f": w40f, "raw20": raw20, "raw33": raw33, "dwide": wide, "d150": decimal.New(150, 2), "d100": decimal.New(100, 0), "d1e2": decimal.New(1, -2), "i100": 100, "f": 2500.0, "x": 3}
 	}
 	probe := strings.ReplaceAll(stableProbe, "V", "("+c.Val+")")
 	w.Eval(1)
@@ -40,6 +49,14 @@ func stableCheck(w *core.W, mon, id string, c *StoredNumCase) {
 		return
 	}
 	ws := obs.SnapshotValues(want)
+	// whatever V is, the local bound to it equals it: `$a == V`, `$a === V`, neither above nor below it
+	if arr, _ := want.([]interface{}); len(arr) == 10 {
+		if arr[2] != true || arr[3] != true || arr[8] != false || arr[9] != false {
+			w.Violation(mon, id+"/local-differs-from-what-was-bound", c, "[... true true ... false false]", clipS(show(want), 300),
+				fmt.Sprintf("$a = %s, then %s: the local is not equal to the value it was bound to", c.Val, probe))
+			return
+		}
+	}
 	r := formula.NewRunner()
 	r.SetThis(data())
 	run := func(src string) (interface{}, bool) {
@@ -79,7 +96,7 @@ func stableCheck(w *core.W, mon, id string, c *StoredNumCase) {
 }
 
 var stableValues = []string{"100", "1.50", "10", "2 * 5", "100000000000000000000", "98765432109876543210.50 + 0.50", "12345678901234567890 * 1000", "1e2", "1e21", "123456789012345678901234567890000", "0.10", "0.000",
-	"-500", "dwide", "d150", "d100", "d1e2", "i100", "f", "1200 / 4", "7.0", "30 % 20", "100 + 0", "5e-1 * 200", "99999999999999999999 + 1", "1000000 * 1000000 * 1000000 * 1000"}
+	"-500", "w50", "w40f", "raw20", "raw33", "dwide", "d150", "d100", "d1e2", "i100", "f", "1200 / 4", "7.0", "30 % 20", "100 + 0", "5e-1 * 200", "99999999999999999999 + 1", "1000000 * 1000000 * 1000000 * 1000"}
 
 var stableBetween = [][]string{{}, {"1 + 1"}, {"$b = 7", "x * 2", "toString(5)"}, {"$b = $a", "$b + 1", "[$a, $a]", "max($a, 1)"}, {"nofn()", "left('abc', 0 - 1)"}}
 
